@@ -34,7 +34,8 @@ RULE = (
     "case = (receive layer, slot of the cancellation request relative to the read event in {iteration before, same iteration before "
     "I/O, same iteration after I/O, wake-up iteration, none}, kind of request in {scope.cancel, move_on_after deadline, task.cancel}, "
     "sizes and positions of the writes, number of rounds). Layers: transport recv / recv_into, AsyncStreamEndpoint.recv_packet (both "
-    "paths), async TLS over the socket adapter, AsyncTCPNetworkClient iterator with timeout, blocking StreamEndpoint (TimeoutError). "
+    "paths), async TLS over the socket adapter, AsyncTCPNetworkClient iterator with timeout, AsyncStreamServer request receiver (yielded timeout / "
+    "timeout scope / move_on_after around the yield, deadlines on a grid that coincides with the arrivals), blocking StreamEndpoint (TimeoutError). "
     "non-trivial = at least one receive was cancelled in the same or an adjacent iteration as a read event (from the monitor log, not "
     "from the plan); distinct = distinct (layer, slot, request kind, write schedule)"
 )
@@ -55,6 +56,9 @@ REQUIRED = [
     "layer:endpoint-buffered",
     "layer:tls",
     "layer:client-iterator",
+    "layer:server-receiver-copy",
+    "layer:server-receiver-buffered",
+    "server_runs_with_cancelled_wait",
     "layer:sync-endpoint-copy",
     "layer:sync-endpoint-buffered",
     "bytes_conserved_runs",
@@ -425,6 +429,86 @@ def sync_layer(ctx, buffered: bool, rng: random.Random) -> str | None:
     return None
 
 
+def server_layer(ctx, buffered: bool, rng: random.Random, witness: dict) -> str | None:
+    """server request receiver: a low-level handler generator drains N requests while every wait is bounded by a yielded timeout /
+    a timeout scope / a move_on_after scope around the yield whose deadline is placed before, on and after the arrival instants
+    (virtual time), with several requests per chunk. The requests the generator receives must be exactly the lines sent, in order."""
+    from easynetwork.lowlevel.api_async.servers.stream import AsyncStreamServer
+
+    from vlib import memtransport
+
+    lines = [f"req{i:03d}" + "q" * rng.randint(0, 5) for i in range(rng.randint(3, 8))]
+    data = b"".join(x.encode() + b"\n" for x in lines)
+    ncuts = rng.choice([0, 0, 1, 2, 4])
+    cuts = sorted(rng.sample(range(1, len(data)), min(len(data) - 1, ncuts)))
+    pieces = gen.chunks_from_cuts(data, cuts)
+    grid = [0.0, 0.25, 0.5, 1.0]
+    script = [(rng.choice(grid + [-1, -2]), p) for p in pieces]
+    plan_modes = [(rng.choice(["yield", "yield", "timeout-scope", "move-on-scope"]), rng.choice(grid)) for _ in range(64)]
+    witness.update({"lines": lines, "script": [(d, len(p)) for d, p in script], "modes": plan_modes[:12]})
+    got: list = []
+    state = {"timeouts": 0, "cancels_in_scope": 0, "errors": []}
+
+    async def main(loop):
+        backend = AsyncIOBackend()
+        listener = memtransport.MemListener(backend)
+        ser = StringLineSerializer()
+        server = AsyncStreamServer(listener, BufferedStreamProtocol(ser) if buffered else StreamProtocol(ser), max_recv_size=rng.choice([3, 64, 16384]))
+        m = memtransport.MemStreamTransport(backend)
+        done = asyncio.Event()
+
+        async def handler(client):
+            i = 0
+            try:
+                while len(got) < len(lines) and i < 400:
+                    mode, t = plan_modes[i % len(plan_modes)]
+                    i += 1
+                    try:
+                        if mode == "yield":
+                            got.append((yield t))
+                        elif mode == "timeout-scope":
+                            with backend.timeout(t):
+                                got.append((yield None))
+                        else:
+                            with backend.move_on_after(t) as sc:
+                                got.append((yield None))
+                            if sc.cancelled_caught():
+                                state["cancels_in_scope"] += 1
+                    except TimeoutError:
+                        state["timeouts"] += 1
+                    except Exception as exc:  # noqa: BLE001
+                        state["errors"].append(f"{type(exc).__name__}: {exc}")
+            finally:
+                done.set()
+
+        serve = asyncio.ensure_future(server.serve(handler))
+        listener.connect(m)
+        feed = asyncio.ensure_future(memtransport.feeder(m.incoming, script))
+        try:
+            await asyncio.wait_for(done.wait(), 600)
+        except TimeoutError:
+            state["errors"].append("handler never finished")
+        feed.cancel()
+        serve.cancel()
+        await asyncio.gather(feed, serve, return_exceptions=True)
+        await server.aclose()
+
+    try:
+        vloop.run(main)
+    except vloop.Quiescent as exc:
+        return f"deadlock: {exc}"
+    ctx.count("server_timeouts_thrown", state["timeouts"] + state["cancels_in_scope"])
+    if state["timeouts"] + state["cancels_in_scope"]:
+        ctx.count("server_runs_with_cancelled_wait")
+    if got != lines:
+        missing = [x for x in lines if x not in got]
+        return f"the handler generator received {got} instead of {lines} (missing {missing[:3]}) after {state['timeouts']} timeouts and {state['cancels_in_scope']} scope cancellations; errors {state['errors'][:2]}"
+    if state["errors"]:
+        return f"unexpected exceptions thrown into the handler: {state['errors'][:3]}"
+    ctx.count("bytes_conserved_runs")
+    return None
+
+
 ASYNC_LAYERS = ["recv", "recv_into", "endpoint-copy", "endpoint-buffered", "tls", "client-iterator"]
 
 
@@ -456,6 +540,15 @@ def run_shard(params: dict, ctx) -> None:
                     ctx.violation(f"lost-data:{layer}", f"[{layer}] sizes={sizes} slots={slots} kind={kind}: {why}", {"layer": layer, "sizes": sizes, "slots": slots, "kind": kind, "seed": params["seed"], "it": it})
             if it == 0 and layer == "recv_into":
                 ctx.sample({"layer": layer, "write_sizes": sizes, "cancel_slots": slots, "request": kind})
+        for buffered in (False, True):
+            for _rep in range(4):
+                name = "server-receiver-buffered" if buffered else "server-receiver-copy"
+                ctx.count(f"layer:{name}")
+                w: dict = {}
+                why = server_layer(ctx, buffered, rng, w)
+                ctx.case(True, name, repr(w))
+                if why:
+                    ctx.violation(f"lost-data:{name}", f"[{name}] {why}", {"layer": name, "seed": params["seed"], "it": it, **w})
         for buffered in (False, True):
             ctx.count("layer:sync-endpoint-buffered" if buffered else "layer:sync-endpoint-copy")
             why = sync_layer(ctx, buffered, rng)
